@@ -34,6 +34,7 @@ type Schema struct {
 	KeyCols  []string
 	Auto     bool     // first key column is AUTO_INCREMENT
 	Nullable bool     // w2 is NULL for w = 0
+	NullOnly bool     // the written part lives in the nullable column alone: w1 stays 10 whatever w is
 	Zoo      bool     // extra columns of many types with fixed per-key values
 	Harsh    bool     // zoo with the value classes that have known defects (C08)
 	KeyKind  string   // int | comp | str
@@ -63,6 +64,10 @@ func Family() []*Schema {
 			DDL: "CREATE TABLE t_zoo (id INT NOT NULL, w1 INT NOT NULL, w2 VARCHAR(64) NOT NULL, u1 INT NOT NULL" + zoo + ", PRIMARY KEY (id))"},
 		{Name: "t_zooh", KeyKind: "int", KeyCols: []string{"id"}, Zoo: true, Harsh: true,
 			DDL: "CREATE TABLE t_zooh (id INT NOT NULL, w1 INT NOT NULL, w2 VARCHAR(64) NOT NULL, u1 INT NOT NULL" + zooh + ", PRIMARY KEY (id))"},
+		// t_nullw (SCHEMA=t_nullw only, never in the rotation): a statement that writes w = 0 changes nothing but a
+		// nullable column, and changes it to NULL
+		{Name: "t_nullw", KeyKind: "int", KeyCols: []string{"id"}, Nullable: true, NullOnly: true,
+			DDL: "CREATE TABLE t_nullw (id INT NOT NULL, w1 INT NOT NULL, w2 VARCHAR(64) NULL, u1 INT NOT NULL, PRIMARY KEY (id))"},
 	}
 }
 
@@ -97,7 +102,39 @@ func (s *Schema) KeyText(k int) string {
 	return strings.Join(parts, "_")
 }
 
-func (s *Schema) W1(w int) int64 { return int64(10 + w) }
+func (s *Schema) W1(w int) int64 {
+	if s.NullOnly {
+		return 10
+	}
+	return int64(10 + w)
+}
+
+// WOf is the inverse of (W1, W2): the abstract written part of concrete values, -2 if they are no image
+func (s *Schema) WOf(w1 int64, w2 interface{}, hasW2 bool) int {
+	if s.NullOnly {
+		if w1 != 10 || !hasW2 {
+			return -2
+		}
+		if w2 == nil {
+			return 0
+		}
+		for w := 1; w <= 9; w++ {
+			if w2 == fmt.Sprintf("v%d", w) {
+				return w
+			}
+		}
+		return -2
+	}
+	w := int(w1 - 10)
+	if w < 0 || w > 9 {
+		return -2
+	}
+	want := s.W2(w)
+	if !hasW2 || (want == nil) != (w2 == nil) || (want != nil && w2 != want) {
+		return -2
+	}
+	return w
+}
 func (s *Schema) W2(w int) interface{} {
 	if s.Nullable && w == 0 {
 		return nil
@@ -125,17 +162,10 @@ func (s *Schema) ToAbstract(row map[string]interface{}) Row {
 	if !ok1 || !ok2 {
 		return Row{-2, -2}
 	}
-	w, u := int(w1-10), int(u1-7)
-	if w < 0 || w > 9 || u < 0 || u > 9 {
-		return Row{-2, -2}
-	}
-	want := s.W2(w)
-	got := row["w2"]
-	if want == nil {
-		if got != nil {
-			return Row{-2, -2}
-		}
-	} else if got != want {
+	u := int(u1 - 7)
+	got, has := row["w2"]
+	w := s.WOf(w1, got, has)
+	if w < 0 || u < 0 || u > 9 {
 		return Row{-2, -2}
 	}
 	if s.Zoo {
@@ -178,6 +208,9 @@ type Style struct {
 	Explicit bool // run the branch in an explicit transaction (BeginTx/Commit) even for one statement
 	Upper    bool // upper-case table name
 	Multi    bool // UPDATE / DELETE of several rows as one multi-statement string ("UPDATE ..; UPDATE ..")
+	// FailFirst: in an explicit local transaction the application first runs an UPDATE of an existing row that
+	// the database fails, handles the error and carries on (MySQL rolls back the statement, not the transaction)
+	FailFirst bool
 	// switches that steer around statement forms with known phase-one defects (reported under C16/C18),
 	// so that they do not mask everything downstream of phase one
 	Parens     bool // parenthesised key conditions (WHERE (a = ? AND b = ?)): image query loses its arguments
@@ -190,7 +223,7 @@ func (st Style) IsMulti(s Stmt) bool {
 }
 
 func RandStyle(r *rand.Rand) Style {
-	return Style{Literal: r.Intn(3) == 0, InList: r.Intn(2) == 0, Explicit: r.Intn(3) == 0, Upper: false, Multi: r.Intn(4) == 0}
+	return Style{Literal: r.Intn(3) == 0, InList: r.Intn(2) == 0, Explicit: r.Intn(3) == 0, Upper: false, Multi: r.Intn(4) == 0, FailFirst: r.Intn(4) == 0}
 }
 
 func lit(v interface{}) string {
